@@ -152,6 +152,11 @@ func (p *Program) Harnesses() []*ssa.Function {
 }
 
 func (p *Program) globalOverride(x *Exec, g *ssa.Global) (Value, bool) {
+	// ORM module schema descriptors refer to generated file descriptors (set up by generated
+	// init code): only their address is passed to the (modelled) database constructor
+	if g.Name() == "ModuleSchema" && strings.HasPrefix(g.Pkg.Pkg.Path(), RegenPrefix) {
+		return x.zero(g.Type().(*types.Pointer).Elem()), true
+	}
 	return nil, false
 }
 
